@@ -34,5 +34,32 @@ LEVEL_TEXT = ("Machine-checked Coq theorems over ALL event lists (client operati
 
 
 def finding_signature(case):
-    # no open finding: every defect found was repaired (see hooks/C02-fix-*.patch)
-    return None
+    """F19 (forwarded request whose handler result cannot be encoded was answered with an EMPTY
+    SUCCESS response): repaired by hooks/C02-fix-forwarded-marshal-error.patch.  Until that patch
+    is in /repo an `open` known_findings entry with this signature keeps the unchanged tree
+    passing; it matches only histories whose sole anomaly is that: a forwarded MUnenc request
+    (never a front-local one) answered once, without error flag, with an empty payload."""
+    try:
+        fwd, local = set(), False
+        for o in case["ops"]:
+            if isinstance(o, dict) and "OReq" in o:
+                c, mid, r, tag = o["OReq"]
+                if isinstance(r, dict) and "RT" in r and r["RT"][1] == "MUnenc":
+                    if r["RT"][0] == 0:
+                        local = True
+                    else:
+                        fwd.add((c, mid))
+        if local or not fwd:
+            return None
+        conns = case["obs"][""][0]
+        hit = False
+        for cr in conns:
+            c, rs = cr[""]
+            for r in rs:
+                mid, err, pl = r["Resp"]
+                if (c, mid) in fwd:
+                    if err is False and pl == "PNone":
+                        hit = True
+        return "OReq:forwarded:MUnenc:empty-success" if hit else None
+    except Exception:
+        return None
